@@ -187,6 +187,10 @@ func initSymIntrinsics() {
 			m.schedOff = m.asTerm(a[0]).C == 0
 			return nil
 		},
+		"SymbolicClock": func(m *Machine, c *frame, fn *ssa.Function, a []value) value {
+			m.symClock = m.asTerm(a[0]).C != 0
+			return nil
+		},
 		"RacyScope": func(m *Machine, c *frame, fn *ssa.Function, a []value) value {
 			m.racyScope = strArg(m, a[0])
 			return nil
